@@ -15,6 +15,7 @@ import (
 	"github.com/tormoder/fit"
 	"pgregory.net/rapid"
 
+	"verif/firstuse"
 	"verif/fitmodel"
 	"verif/gen"
 	"verif/hx"
@@ -295,6 +296,19 @@ func collidingDefinitions(rec *hx.Recorder) {
 	rec.NonTrivialEnum(n)
 }
 
+// TestMain: with VERIF_FIRSTUSE_WORKER set this binary is a child of the
+// "first-use" sub-check (see package firstuse).
+func TestMain(m *testing.M) {
+	firstuse.WorkerIfAsked()
+	os.Exit(m.Run())
+}
+
+func firstUse(rec *hx.Recorder) {
+	firstuse.Run(rec, hx.Pick(150, 1500), func(msg string) {
+		rec.Fail("first-use", "", msg, streamCase{Text: "(first-use) 16 goroutines decode a small activity file as the first calls of a fresh process"})
+	})
+}
+
 func fourGiB() gen.BigResult {
 	g := gen.NewBigFile(0xFFFFFFFF, 0xFFFFFFFF, nil)
 	return gen.DecodeBig(g, func(r io.Reader) ([]byte, error) {
@@ -328,6 +342,11 @@ func reportFourGiB(rec *hx.Recorder, r gen.BigResult) {
 func TestC02(t *testing.T) {
 	hx.Main(t, "C02", func(rec *hx.Recorder) {
 		if rp, ok := hx.LoadReplay(); ok {
+			if rp.Sub == "first-use" {
+				rec.Eval("replay", 1)
+				firstUse(rec)
+				return
+			}
 			if rp.Sub == "four-gib" {
 				rec.Eval("replay", 1)
 				reportFourGiB(rec, fourGiB())
@@ -369,6 +388,9 @@ func TestC02(t *testing.T) {
 			sweep(t, rec)
 			hugeRecords(rec)
 			collidingDefinitions(rec)
+			if os.Getenv("VERIF_VARIANT") == "" {
+				firstUse(rec)
+			}
 		}
 
 		hx.RapidCheck(t, rec, "streams", func(rt *rapid.T, fail func(string, string, any)) {
